@@ -456,3 +456,47 @@ package eval
 //@          && sepCS(allowedConns, netpols[j].EgressPolicyExposure.ExternalExposure) && sepCS(allowedConns, netpols[j].EgressPolicyExposure.ClusterWideExposure))
 //@     invariant npsep: pe.exposureAnalysisFlag ==> (forall j int :: {netpols[j]} (0 <= j && j < len(netpols)) ==> podNpSep(peerPod(selPeer(src, dst, isIngress)), netpols[j]))
 //@     invariant expo: pe.exposureAnalysisFlag ==> (forall j int :: {netpols[j]} (0 <= j && j <= rangeindex) ==> cweIncluded(netpols[j], peerPod(selPeer(src, dst, isIngress)), isIngress))
+
+// ---------------------------------------------------------------------------------------------
+// Representative peers (C07): the only refinement - a representative peer is dropped iff its selectors are label
+// equalities only (no matchExpressions on either side, neither side empty) and the real pod and its namespace satisfy them
+// ---------------------------------------------------------------------------------------------
+
+//@ import metav1 "k8s.io/apimachinery/pkg/apis/meta/v1"
+//@ pred repPeersOK(pe *PolicyEngine) = pe.representativePeersMap != nil ==> (forall key string :: {key in pe.representativePeersMap} key in pe.representativePeersMap ==>
+//@     (pe.representativePeersMap[key] != nil && pe.representativePeersMap[key].Pod != nil && pe.representativePeersMap[key].Pod.RepresentativeNsLabelSelector != nil))
+//@ fun redundantRep(rp *k8s.Pod, podLbls map[string]string, nsLbls map[string]string) bool = rp.RepresentativePodLabelSelector != nil
+//@     && len(rp.RepresentativePodLabelSelector.MatchExpressions) == 0 && len(rp.RepresentativeNsLabelSelector.MatchExpressions) == 0
+//@     && len(rp.RepresentativePodLabelSelector.MatchLabels) > 0 && len(rp.RepresentativeNsLabelSelector.MatchLabels) > 0
+//@     && lsMatch(valof(rp.RepresentativePodLabelSelector), podLbls) && lsMatch(valof(rp.RepresentativeNsLabelSelector), nsLbls)
+
+//@ func (*PolicyEngine).removeRepresentativePeersMatchingLabels
+//@   requires pe != nil && repPeersOK(pe)
+//@   modifies *
+//@   modifies PolicyEngine.representativePeersMap { r | false }
+//@   ensures [C07] exact: pe.representativePeersMap != nil ==> (forall key string :: {key in pe.representativePeersMap} {old(key in pe.representativePeersMap)}
+//@         (key in pe.representativePeersMap) == (old(key in pe.representativePeersMap) && !old(redundantRep(pe.representativePeersMap[key].Pod, realPodLabels, realNsLabels))))
+//@   ensures [C07] kept: pe.representativePeersMap != nil ==> (forall key string :: {key in pe.representativePeersMap} key in pe.representativePeersMap ==>
+//@         pe.representativePeersMap[key] == old(pe.representativePeersMap[key]))
+//@   loop 1:
+//@     invariant sub: forall key string :: {seen(key)} seen(key) ==> key in pe.representativePeersMap
+//@     invariant nilmap: pe.representativePeersMap == nil ==> len(keysToDelete) == 0
+//@     invariant sound: forall i int :: {keysToDelete[i]} (0 <= i && i < len(keysToDelete)) ==> (keysToDelete[i] in pe.representativePeersMap
+//@         && redundantRep(pe.representativePeersMap[keysToDelete[i]].Pod, realPodLabels, realNsLabels))
+//@     invariant complete: forall key string :: {seen(key)} (seen(key) && redundantRep(pe.representativePeersMap[key].Pod, realPodLabels, realNsLabels)) ==>
+//@         (exists i int :: {keysToDelete[i]} 0 <= i && i < len(keysToDelete) && keysToDelete[i] == key)
+//@   loop 2:
+//@     invariant dom: forall key string :: {key in pe.representativePeersMap} {old(key in pe.representativePeersMap)} (key in pe.representativePeersMap) ==
+//@         (old(key in pe.representativePeersMap) && !(exists i int :: {keysToDelete[i]} 0 <= i && i <= rangeindex && keysToDelete[i] == key))
+//@     invariant vals: forall key string :: {key in pe.representativePeersMap} key in pe.representativePeersMap ==> pe.representativePeersMap[key] == old(pe.representativePeersMap[key])
+
+// adding a representative peer keeps every stored one and establishes what the refinement step relies on
+// (a stored representative pod always carries a namespace selector)
+//@ func (*PolicyEngine).addRepresentativePod
+//@   requires pe != nil && pe.representativePeersMap != nil && repPeersOK(pe)
+//@   modifies *
+//@   modifies PolicyEngine.representativePeersMap { r | false }
+//@   ensures [C07,C12] inv: repPeersOK(pe) && pe.representativePeersMap != nil
+//@   ensures [C07] kept: forall key string :: {key in pe.representativePeersMap} {old(key in pe.representativePeersMap)} old(key in pe.representativePeersMap) ==>
+//@         (key in pe.representativePeersMap && pe.representativePeersMap[key] == old(pe.representativePeersMap[key]))
+//@   ensures [C07] nilsel: objSelectors == nil ==> res != nil
